@@ -863,6 +863,26 @@ func (in *Interp) apply(x *ast.CallExpr, callee string, obj types.Object, recv V
 			return one(st, v)
 		}
 	}
+	// an iterator-style callee (Ascend, Scan, Visit, …): the rule names the callback argument and the item(s) of one
+	// abstract iteration; the callback runs once, in this state, and what it returned is recorded as an event
+	if in.Hooks.Visit != nil {
+		if idx, items, ok := in.Hooks.Visit(st, callee, recv, args); ok && idx >= 0 && idx < len(args) {
+			if cl, ok := args[idx].(Closure); ok {
+				if lit, ok := cl.Lit.(*ast.FuncLit); ok {
+					var out []ev
+					for _, e := range in.inline(lit.Type, nil, lit.Body, nil, items, st, x, info) {
+						if pv, isPanic := e.v.(panicVal); isPanic {
+							out = append(out, ev{e.st, pv})
+							continue
+						}
+						e.st.Emit("visited "+callee, x.Pos(), e.v)
+						out = append(out, ev{e.st, Sym{Name: "void"}})
+					}
+					return out
+				}
+			}
+		}
+	}
 	if b, ok := obj.(*types.Builtin); ok {
 		switch b.Name() {
 		case "panic":
